@@ -289,7 +289,15 @@ func checkC16(c *core.Ctx, l *core.Ledger) {
 				}
 			})
 		}
-		l.Check(ok, "CLOSE", "Flags.Handle", c.Rel(f.Pos()), "when any plugin fails to open, the handles opened so far are closed before the error is returned", "a partial failure returns without closing the handles that were opened")
+		why := "a partial failure returns without closing the handles that were opened"
+		if ok {
+			// what is closed is everything that was opened: the receiver of Close is the very collection the
+			// fan-out callback stores its handles in, or is built from it by a loop that visits all of it
+			if w := closesWholeCollection(f, closes[0]); w != "" {
+				ok, why = false, w
+			}
+		}
+		l.Check(ok, "CLOSE", "Flags.Handle", c.Rel(f.Pos()), "when any plugin fails to open, all handles opened so far are closed before the error is returned", why)
 	} else {
 		l.Unk("CLOSE", "Flags.Handle", "", "not found")
 	}
@@ -634,4 +642,107 @@ func checkC16Library(c *core.Ctx, l *core.Ledger) {
 		l.Unk("LIBRARY", "pluginHandler.Goodbye", "", "not found")
 	}
 	l.Floor("LIBRARY", 3)
+}
+
+// closesWholeCollection: the value Close is called on is (a load of) the cell
+// that the fan-out closure stores opened handles into; or a slice assembled
+// from that cell by a loop that has no exit other than the end of the range.
+func closesWholeCollection(f *ssa.Function, closeCall ssa.Instruction) string {
+	// cells captured and written by closures of f
+	cells := map[ssa.Value]bool{}
+	core.Instrs(f, func(in ssa.Instruction) {
+		mc, ok := in.(*ssa.MakeClosure)
+		if !ok {
+			return
+		}
+		fn := mc.Fn.(*ssa.Function)
+		for i, fv := range fn.FreeVars {
+			written := false
+			core.Instrs(fn, func(i2 ssa.Instruction) {
+				if st, ok := i2.(*ssa.Store); ok {
+					if st.Addr == ssa.Value(fv) {
+						written = true
+					}
+					if ia, ok := st.Addr.(*ssa.IndexAddr); ok {
+						if ld, ok := ia.X.(*ssa.UnOp); ok && ld.X == ssa.Value(fv) {
+							written = true
+						}
+						if ia.X == ssa.Value(fv) {
+							written = true
+						}
+					}
+				}
+			})
+			if written && i < len(mc.Bindings) {
+				cells[mc.Bindings[i]] = true
+			}
+		}
+	})
+	if len(cells) == 0 {
+		return ""
+	}
+	call := closeCall.(ssa.CallInstruction).Common()
+	var recv ssa.Value
+	if call.IsInvoke() {
+		recv = call.Value
+	} else if len(call.Args) > 0 {
+		recv = call.Args[0]
+	}
+	recv = stripIface(recv)
+	fromCell := func(v ssa.Value) bool {
+		for i := 0; i < 4; i++ {
+			switch x := v.(type) {
+			case *ssa.UnOp:
+				if cells[x.X] {
+					return true
+				}
+				return false
+			case *ssa.ChangeType:
+				v = x.X
+			case *ssa.Convert:
+				v = x.X
+			default:
+				return cells[v]
+			}
+		}
+		return false
+	}
+	if fromCell(recv) {
+		return ""
+	}
+	// a derived slice: accept only if the loop that builds it cannot be left early
+	cyc := core.CyclicBlocks(f)
+	early := false
+	for b := range cyc {
+		if !cyc[b] {
+			continue
+		}
+		for _, s := range b.Succs {
+			if cyc[s] {
+				continue
+			}
+			// leaving the loop: allowed only from the block that tests the range (Next / index < len)
+			last := b.Instrs[len(b.Instrs)-1]
+			ifi, isIf := last.(*ssa.If)
+			header := false
+			if isIf {
+				switch cnd := ifi.Cond.(type) {
+				case *ssa.Extract:
+					_, header = cnd.Tuple.(*ssa.Next)
+				case *ssa.BinOp:
+					header = cnd.Op == token.LSS && strings.HasPrefix(core.Sym(cnd.Y), "len(")
+				}
+			}
+			if !header {
+				early = true
+			}
+		}
+	}
+	if early {
+		return "on a partial failure only a part of the opened handles is closed: the collection passed to Close is assembled by a loop that can stop early (a handle after the first failed plugin is never closed, its process never reaped)"
+	}
+	if len(cyc) == 0 {
+		return "on a partial failure Close is called on something other than the collection the opened handles were stored in"
+	}
+	return ""
 }
